@@ -767,11 +767,48 @@ func checkAutoLoader(p *Program, r *Report, pre string) {
 			exhWhy = fmt.Sprintf("return at %s yields (%s, %s, %s); required (nil, last replay stream, non-nil error)", p.InstrPos(ret), ret.Results[0], ret.Results[1], ret.Results[2])
 		}
 	}
+	// (6b) path rule: from the loader call, every path either returns that
+	// call's own stream, or re-enters the loop header handing that stream to
+	// the phi. A path that leaves the loop with the stale (already consumed)
+	// stream — a break before `inputStream = nextStream` — loses the bytes
+	// the failed loader pulled from the source.
+	if exhOK && isPhi && exStream != nil {
+		seen := map[*ssa.BasicBlock]bool{}
+		var walk func(b *ssa.BasicBlock, from *ssa.BasicBlock)
+		walk = func(b, from *ssa.BasicBlock) {
+			if b == phi.Block() {
+				for i, pred := range b.Preds {
+					if pred == from && phi.Edges[i] != ssa.Value(exStream) {
+						exhOK = false
+						exhWhy = fmt.Sprintf("the loop is re-entered from block %d with inputStream = %s instead of the failed loader's replay stream", from.Index, phi.Edges[i])
+					}
+				}
+				return
+			}
+			if seen[b] {
+				return
+			}
+			seen[b] = true
+			if ret, ok := b.Instrs[len(b.Instrs)-1].(*ssa.Return); ok {
+				if len(ret.Results) != 3 || ret.Results[1] != ssa.Value(exStream) {
+					exhOK = false
+					exhWhy = fmt.Sprintf("a path from the loader call reaches the return at %s without passing the loader's replay stream on: it returns %s, whose consumed prefix is lost", p.InstrPos(ret), valStr(ret.Results, 1))
+				}
+				return
+			}
+			for _, s := range b.Succs {
+				walk(s, b)
+			}
+		}
+		for _, s := range call.Block().Succs {
+			walk(s, call.Block())
+		}
+	}
 	k6 := "autometa.Load (d) exhaustion-return"
 	if pre == "C19" {
 		k6 = "autometa.Load (6) exhaustion-return"
 	}
-	r.Check(exhOK, rule, k6, pos, "after the last loader: nil metadata, the last loader's replay stream, a non-nil error", exhWhy)
+	r.Check(exhOK, rule, k6, pos, "after the last loader: nil metadata, the last loader's replay stream, a non-nil error; no path leaves the loop with a stale stream", exhWhy)
 
 	// (7) no other use of r
 	var stray []string
